@@ -68,6 +68,9 @@ type applierEnv struct {
 	applier *operationapplier.Applier
 	pubOps  []*operation.AnchoredOperation
 	unpub   []*operation.AnchoredOperation
+
+	tightMu sync.Mutex
+	tight   map[uint]*operationapplier.Applier
 }
 
 // protocolVariant changes one numeric limit other than the maximum operation time delta
@@ -192,7 +195,7 @@ func (e *applierEnv) project(rm *protocol.ResolutionModel) ARM {
 
 		if m := reMem.FindStringSubmatch(name); m != nil {
 			i := atoi(m[1])
-			if f, ok := v.(float64); !ok || int(f) != i {
+			if digestJSON(v) != digestJSON(memValue(i)) {
 				i += 1000
 			}
 
@@ -294,6 +297,7 @@ type stepResult struct {
 	mutated  string // non-empty: which input was modified by the call (C12)
 	partial  bool   // error together with a non-nil result (C12)
 	panicked string
+	tight    string // non-empty: the result changes when the delta size limit is the delta's exact size
 }
 
 func (e *applierEnv) step(cs *cstate, o *ROp) (res stepResult) {
@@ -322,6 +326,21 @@ func (e *applierEnv) stepVariant(cs *cstate, o *ROp, variant int) (res stepResul
 		}
 	}
 
+	// a delta whose canonical size is exactly the maximum delta size is within the limit: the same call under a
+	// protocol whose limit is that size must give the same result (the limits are inclusive, measured on the
+	// canonical form)
+	if o.Dv == "ok" && variant == 0 {
+		if d := e.conc.buildDelta(o); d != nil {
+			size := uint(len(refJCSSimple(d)))
+			if size < e.proto.MaxDeltaSize {
+				out2, err2 := e.tightApplier(size).Apply(op, cs.rm)
+				if (err == nil) != (err2 == nil) || digestJSON(out) != digestJSON(out2) {
+					res.tight = fmt.Sprintf("maximum delta size %d = the canonical size of this delta: error %v / %v", size, err, err2)
+				}
+			}
+		}
+	}
+
 	if err != nil {
 		res.err = true
 		res.partial = out != nil
@@ -341,6 +360,26 @@ func (e *applierEnv) stepVariant(cs *cstate, o *ROp, variant int) (res stepResul
 	res.next = newCState(out, cs)
 
 	return res
+}
+
+func (e *applierEnv) tightApplier(size uint) *operationapplier.Applier {
+	e.tightMu.Lock()
+	defer e.tightMu.Unlock()
+
+	if a, ok := e.tight[size]; ok {
+		return a
+	}
+
+	if e.tight == nil {
+		e.tight = map[uint]*operationapplier.Applier{}
+	}
+
+	p := e.proto
+	p.MaxDeltaSize = size
+	a := operationapplier.New(p, operationparser.New(p), doccomposer.New())
+	e.tight[size] = a
+
+	return a
 }
 
 // ---------------------------------------------------------------------------------------------
@@ -620,6 +659,8 @@ func applierReplay(args []string) {
 						col.report(mismatch{Kind: "input-mutated", Key: opKey("input-mutated", &ed.Op), Case: cs, Detail: res.mutated, Concrete: conc(variant), Replay: rp})
 					case res.partial:
 						col.report(mismatch{Kind: "error-with-state", Key: opKey("error-with-state", &ed.Op), Case: cs, Concrete: conc(variant), Replay: rp})
+					case res.tight != "":
+						col.report(mismatch{Kind: kindPrefix + "limit-exactness", Key: opKey(kindPrefix+"limit-exactness", &ed.Op), Case: cs, Detail: res.tight, Concrete: conc(variant), Replay: rp})
 					case !reflect.DeepEqual(got, want):
 						col.report(mismatch{Kind: kindPrefix + "state", Key: opKey(kindPrefix+"state", &ed.Op), Case: cs, Expected: want, Actual: got, Concrete: conc(variant), Replay: rp})
 					case res.err != ed.Refused:
@@ -640,6 +681,11 @@ func applierReplay(args []string) {
 				if expand && len(ed.Path) <= expandMaxPath && ed.Op.Sig != "ok" && ed.Op.Sig != "otherkey" {
 					k := pathKey(init, ed.Path) + ed.Op.key()
 					if _, dup := expandedOps.LoadOrStore(k, true); !dup {
+						// the untampered twin first: what a verifier may remember from it must not help the forgeries
+						twin := ed.Op
+						twin.Sig = "ok"
+						env.stepVariant(pre, &twin, 0)
+
 						n := env.conc.variants(&ed.Op)
 						for v := 1; v < n; v++ {
 							r2 := env.stepVariant(pre, &ed.Op, v)
